@@ -389,7 +389,7 @@ def main_generic(prop, args, make_units, unit_fn, assumptions, bounds=None, budg
     rep.bounds = bounds or {}
     if units:
         rep.bounds.setdefault('per_unit', {k: units[0].get(k) for k in ('max_paths', 'timeout', 'query_timeout_ms', 'K')})
-    deadline = time.time() + (budget or (330 if args.tier == 'quick' else common.THOROUGH_S))
+    deadline = time.time() + (budget or (common.QUICK_S if args.tier == 'quick' else common.THOROUGH_S))
 
     def progress(done, total, res):
         if args.verbose:
